@@ -635,4 +635,115 @@ theorem run_minv {s : MS} (h : MInv s) (ops : List Op) : MInv (run s ops) := by
   | nil => exact h
   | cons op ops ih => exact ih (step_minv h op)
 
+/-! the map pop is the decision point -/
+
+/-- a contender that finds the id gone from the map fails and changes nothing: an answer gets
+`E_FIN_FAILED` / `E_REQ_FAILED` / `E_TOUCH_FAILED` and the state is the same … -/
+theorem ansMapPop_out (s : MS) {id : Nat} (hm : id ∉ s.map) (k : Nat) (a : Ans) :
+    step s (.ansMapPop k id a) = (s, .fail) := by
+  simp [step, hm]
+
+/-- … an answer of a connection that is not the owner likewise … -/
+theorem ansMapPop_foreign (s : MS) {k id : Nat} (ho : getA s.owner id ≠ k) (a : Ans) :
+    step s (.ansMapPop k id a) = (s, .fail) := by
+  simp [step, ho]
+
+/-- … and the scan that popped the object from the heap only drops its own pointer (`goto exit`):
+no event, no change of queue, deferred set, map, heap or any message object. -/
+theorem scanMapPop_out (s : MS) {id : Nat} (hm : id ∉ s.map) :
+    (step s (.scanMapPop id)).2 ≠ .ok ∧
+    (step s (.scanMapPop id)).1 = { s with pend := s.pend.erase (Pend.scan id) } := by
+  simp only [step]; split
+  · simp [hm]
+  · rename_i hp; simp [List.erase_of_not_mem hp]
+
+/-- a successful map pop takes the id out of the map (it is there at most once) -/
+theorem pop_takes_it {s : MS} (h : MInv s) {id : Nat} {op : Op} (hp : isPopOf id op = true)
+    (hok : (step s op).2 = .ok) : id ∉ (step s op).1.map := by
+  have h1 := h.one id
+  cases op with
+  | ansMapPop k i a =>
+    have : i = id := by simpa [isPopOf] using hp
+    subst this
+    simp only [step] at hok ⊢
+    split
+    · rename_i hm
+      split
+      · exact not_mem_erase_self h1 (m_le_cnt s i) hm
+      · rename_i ho; rw [if_pos hm, if_neg ho] at hok; cases hok
+    · rename_i hm; exact hm
+  | scanMapPop i =>
+    have : i = id := by simpa [isPopOf] using hp
+    subst this
+    simp only [step] at hok ⊢
+    split
+    · split
+      · rename_i hm; exact not_mem_erase_self h1 (m_le_cnt s i) hm
+      · rename_i hm; exact hm
+    · rename_i hpn; rw [if_neg hpn] at hok; cases hok
+  | _ => simp [isPopOf] at hp
+
+/-- without a push of `id`, an id that is not in the map stays out of it -/
+theorem stays_out (s : MS) {id : Nat} (hm : id ∉ s.map) {op : Op} (hnp : isPushOf id op = false) :
+    id ∉ (step s op).1.map := by
+  cases op with
+  | delMapPush k i =>
+    have hne : ¬ i = id := by simpa [isPushOf] using hnp
+    simp only [step]; repeat' split
+    all_goals (first | exact hm | (simp; exact ⟨fun he => hne he.symm, hm⟩))
+  | touchMapPush k i =>
+    have hne : ¬ i = id := by simpa [isPushOf] using hnp
+    simp only [step]; repeat' split
+    all_goals (first | exact hm | (simp; exact ⟨fun he => hne he.symm, hm⟩))
+  | ansMapPop k i a =>
+    simp only [step]; repeat' split
+    all_goals (first | exact hm | exact fun hx => hm (List.mem_of_mem_erase hx))
+  | scanMapPop i =>
+    simp only [step]; repeat' split
+    all_goals (first | exact hm | exact fun hx => hm (List.mem_of_mem_erase hx))
+  | ansFinish k i a =>
+    simp only [step]; repeat' split
+    all_goals exact hm
+  | put i => simp only [step]; split <;> exact hm
+  | heapPush i => simp only [step]; split <;> exact hm
+  | scanHeapPop i => simp only [step]; split <;> exact hm
+  | deferDue i => simp only [step]; split <;> exact hm
+
+theorem no_win_when_out (s : MS) {id : Nat} (hm : id ∉ s.map) (ops : List Op)
+    (hnp : ∀ op ∈ ops, isPushOf id op = false) : wins id s ops = 0 := by
+  induction ops generalizing s with
+  | nil => rfl
+  | cons op ops ih =>
+    have hout := stays_out s hm (hnp op List.mem_cons_self)
+    have hrest := ih _ hout (fun o ho => hnp o (List.mem_cons_of_mem _ ho))
+    have hfail : (isPopOf id op && (step s op).2 == .ok) = false := by
+      cases op with
+      | ansMapPop k i a =>
+        by_cases hi : i = id
+        · subst hi; rw [ansMapPop_out s hm]; simp
+        · simp [isPopOf, hi]
+      | scanMapPop i =>
+        by_cases hi : i = id
+        · subst hi; have := (scanMapPop_out s hm).1; simp [this]
+        · simp [isPopOf, hi]
+      | _ => simp [isPopOf]
+    simp [wins, hfail, hrest]
+
+/-- at most one map pop of `id` succeeds along a schedule that does not push `id` again -/
+theorem wins_le_one {s : MS} (hi : MInv s) (id : Nat) (ops : List Op)
+    (hnp : ∀ op ∈ ops, isPushOf id op = false) : wins id s ops ≤ 1 := by
+  induction ops generalizing s with
+  | nil => simp [wins]
+  | cons op ops ih =>
+    have hnp' : ∀ o ∈ ops, isPushOf id o = false := fun o ho => hnp o (List.mem_cons_of_mem _ ho)
+    simp only [wins]
+    by_cases hw : (isPopOf id op && (step s op).2 == .ok) = true
+    · simp only [Bool.and_eq_true, beq_iff_eq] at hw
+      have hout := pop_takes_it hi hw.1 hw.2
+      have := no_win_when_out _ hout ops hnp'
+      simp [hw.1, hw.2, this]
+    · have := ih (step_minv hi op) hnp'
+      simp only [Bool.not_eq_true] at hw
+      simp [hw]; exact this
+
 end Nsq.Proofs.ChanMicro
